@@ -4,7 +4,7 @@
    allocated scopes that are neither a task group's own scope nor a task handle's scope, AExit on such scopes
    or when it is rejected by its guards anyway, AGroupEnter on allocated groups, AFinish only at the task's
    base scope, ARun (HWake t f) only for f = the task's waiter). *)
-From AV Require Import Base Machine ScopeFrames DeliverInv TreeInv DeliverAlive PotentialInv TreeStep KernelInv DeliverThms CycleThms ActWalk ActThms.
+From AV Require Import Base Machine ScopeFrames DeliverInv TreeInv DeliverAlive PotentialInv TreeStep KernelInv DeliverThms CycleThms ActWalk ActThms CycleMore.
 
 (* I4: a cancelled, hosted scope that some live task still reaches (walk from the task's current scope up the
    parent links through scopes that are neither shielded nor cancelled) has its delivery callback scheduled *)
@@ -252,3 +252,68 @@ Theorem C03_cancel_latency_any_activity_nonvacuous_window :
   wok0 3 11 (final step init grp_pre) (grp_ops1 ++ grp_ops2).
 Proof. exact grp_wok0. Qed.
 Print Assumptions C03_cancel_latency_any_activity_nonvacuous_window.
+
+(* ---- a plain checkpoint() under the FIFO loop (audit C03 item 2) ----
+   cycle_okc t n s = each of the next n head runs up to t's own step is a covered callback of somebody else
+   (bystander_y: HDeliver/HTaskDone/HSleepDone/HTimeout, HStep/HWake of another task with a simple_ctl frame).
+   The task sits in the bare yield of checkpoint() (no waiter, its step queued) and reaches the cancelled hosted
+   scope c; no step of t is queued in front of position |pre| and the delivery callback of c is queued in front
+   of it (or a request is already recorded).  Then the first step of t in this iteration raises the cancellation.
+   (If the step is queued in front of the delivery callback, checkpoint() returns normally - the task is not
+   blocked, and its next wait is covered by the latency theorems.) *)
+Theorem C03_checkpoint_raises_fifo : forall t c s pre post,
+  reach_ok s -> running s <> Some t ->
+  s_cancelled (scopes s c) = true -> s_host (scopes s c) <> None -> reaches s t c ->
+  k_started (tasks s t) = true -> k_waiter (tasks s t) = None -> k_ctl (tasks s t) = CYield YCheckpoint ->
+  ready s = pre ++ HStep t :: post -> ~ In (HStep t) pre ->
+  (k_must (tasks s t) = true \/ In (HDeliver c) pre) ->
+  cycle_okc t (length (ready s)) s ->
+  exists si, In (si, HStep t) (heads (length (ready s)) s) /\
+             exists o, snd (step si (ARun (HStep t))) = RExc (ECancel o).
+Proof. exact checkpoint_raises_fifo. Qed.
+Print Assumptions C03_checkpoint_raises_fifo.
+
+Theorem C03_checkpoint_raises_fifo_nonvacuous :
+  let s := final step init [ANewRoot; ANewScope 1 None false; AEnter 1 1; ACancel 1 1; AYield 1] in
+  reach_ok s /\ running s <> Some 1 /\ s_cancelled (scopes s 1) = true /\ s_host (scopes s 1) <> None /\
+  reaches s 1 1 /\ k_started (tasks s 1) = true /\ k_waiter (tasks s 1) = None /\
+  k_ctl (tasks s 1) = CYield YCheckpoint /\ ready s = [HDeliver 1] ++ HStep 1 :: [] /\
+  ~ In (HStep 1) [HDeliver 1] /\ In (HDeliver 1) [HDeliver 1] /\ cycle_okc 1 (length (ready s)) s.
+Proof. exact ck_premises. Qed.
+Print Assumptions C03_checkpoint_raises_fifo_nonvacuous.
+
+(* ---- a task that has not started yet (audit C03 item 2) ----
+   The full statement is ActThms.new_task_cancelled_stmt (three iterations; NOT proved).  Proved part: under
+   arbitrary activity of the others (wokn: any act of another task or of the environment, any head-of-queue
+   callback that does not resume t), the first step of a freshly spawned task is run within the current
+   iteration.  If a (native) request was recorded on it before, the step ends the task as cancelled without
+   running its body; otherwise the task starts and parks at its first decision point on a fresh pending future
+   with no request recorded, i.e. it meets the task-side premises of C03_cancel_latency_any_activity, which then
+   gives two more iterations for whatever cancelled hosted scope it reaches (AnyIO deliveries skip an unstarted
+   task, so that scope's delivery callback is still scheduled by C03_delivery_alive).  Missing for the full
+   statement: that the task still reaches SOME cancelled hosted scope after the intervening ops and its own
+   first step (entering its handle scope), unless somebody shielded it. *)
+Theorem C03_new_task_cancelled_partial : forall t s ops s',
+  reach_ok s -> running s <> Some t -> k_ctl (tasks s t) = CNew -> k_started (tasks s t) = false ->
+  k_waiter (tasks s t) = None -> k_done (tasks s t) = None -> In (HStep t) (ready s) -> t < ntask s ->
+  wcyc (length (ready s)) s ops s' -> wokn t s ops ->
+  exists si, In (si, ARun (HStep t)) (trace s ops) /\ reach_ok si /\
+    let b := fst (step si (ARun (HStep t))) in
+    (k_must (tasks s t) = true -> k_ctl (tasks b t) = CDone /\ exists e, k_done (tasks b t) = Some (OCanc (ECancel e))) /\
+    (k_must (tasks si t) = false ->
+       reach_ok b /\ running b <> Some t /\ k_started (tasks b t) = true /\ k_done (tasks b t) = None /\
+       k_must (tasks b t) = false /\ wait_ctl (k_ctl (tasks b t)) = true /\
+       exists fp, k_waiter (tasks b t) = Some fp /\ f_st (futs b fp) = FPend).
+Proof. exact new_task_first_step. Qed.
+Print Assumptions C03_new_task_cancelled_partial.
+
+(* non-vacuity: a child spawned into a task group whose scope is already cancelled; nt_ops = [ARun (HDeliver 1);
+   ARun (HStep 2)]: the delivery callback skips the unstarted child, then the child takes its first step *)
+Theorem C03_new_task_cancelled_partial_nonvacuous :
+  let s := final step init [ANewRoot; AGroupNew 1; AGroupEnter 1 1; ACancel 1 1; ASpawn 1 1] in
+  reach_ok s /\ running s <> Some 2 /\ k_ctl (tasks s 2) = CNew /\ k_started (tasks s 2) = false /\
+  k_waiter (tasks s 2) = None /\ k_done (tasks s 2) = None /\ In (HStep 2) (ready s) /\ 2 < ntask s /\
+  s_cancelled (scopes s 1) = true /\ reaches s 2 1 /\ k_must (tasks s 2) = false /\
+  wokn 2 s nt_ops /\ exists s', wcyc (length (ready s)) s nt_ops s'.
+Proof. exact nt_premises. Qed.
+Print Assumptions C03_new_task_cancelled_partial_nonvacuous.
